@@ -26,6 +26,19 @@
 (* behaviours; Lin(t) (a single mutator taking effect on its own) is kept   *)
 (* as an explicit action for the model checker.                             *)
 (*                                                                         *)
+(* ISSUE ORDER.  Through the asynchronous API an operation is issued by the   *)
+(* call that creates its future (ticket tk > 0 = position in the issue       *)
+(* order) and takes effect while the future is driven, possibly much later   *)
+(* and in another order.  Writes/removals of one key must take effect in the *)
+(* order they were issued, whatever the order in which their futures         *)
+(* complete: when a mutator takes effect, every mutator of that key issued   *)
+(* before it and not yet in effect takes effect first (it is overwritten:    *)
+(* "the state must either see the first write then the second, or only ever  *)
+(* the second"), and a mutator never takes effect after one issued later.    *)
+(* Synchronous calls (tk = 0) obtain their place in the order somewhere      *)
+(* inside the call, so for them real-time order is all that can be said.     *)
+(* (A run uses one API only.)                                                *)
+(*                                                                         *)
 (* A read can be linearised anywhere in its interval: `seen` collects the   *)
 (* values its key held while it was pending.  A listing is NOT required to  *)
 (* be one atomic snapshot of a namespace (the property only asks that it    *)
@@ -49,7 +62,7 @@ kvars == <<nk, ns, kv, lz, pend>>
 
 Threads == 1..MaxThreads
 Keys == 1..nk
-NoOp == [op |-> "none", k |-> 0, v |-> 0, lazy |-> FALSE, done |-> FALSE, seen |-> {}]
+NoOp == [op |-> "none", k |-> 0, v |-> 0, lazy |-> FALSE, tk |-> 0, done |-> FALSE, seen |-> {}]
 
 IsMut(p) == p.op \in {"write", "remove"}
 Pres(v) == IF v = 0 THEN 0 ELSE 1
@@ -80,14 +93,35 @@ Cur == [kv |-> kv, lz |-> lz, pend |-> pend]
 (* pending mutators, not yet in effect, of the keys in K, other than t's *)
 Others(t, K) == {u \in Threads \ {t} : IsMut(pend[u]) /\ ~pend[u].done /\ pend[u].k \in K}
 
+RECURSIVE ByTicket(_)
+ByTicket(S) ==
+  IF S = {} THEN <<>>
+  ELSE LET m == CHOOSE u \in S : \A w \in S : pend[u].tk <= pend[w].tk
+       IN <<m>> \o ByTicket(S \ {m})
+
+(* issue-order closed: with a mutator also every earlier-issued one of its key *)
+Closed(S, All) ==
+  \A u \in S, w \in All : (pend[w].k = pend[u].k /\ pend[w].tk < pend[u].tk) => w \in S
+
+(* the sequences of other pending mutators that may take effect before the    *)
+(* observation of t (a read / list) is made                                   *)
+BeforeObs(t, K) ==
+  IF pend[t].tk = 0 THEN OrderedSubsets(Others(t, K))
+  ELSE {ByTicket(S) : S \in {X \in SUBSET Others(t, K) : Closed(X, Others(t, K))}}
+
+(* ... before the mutator t itself takes effect (at the latest when it returns) *)
+BeforeMut(t) ==
+  IF pend[t].tk = 0 THEN OrderedSubsets(Others(t, {pend[t].k}))
+  ELSE {ByTicket({u \in Others(t, {pend[t].k}) : pend[u].tk < pend[t].tk})}
+
 -----------------------------------------------------------------------------
-Call(t, op, k, v, lazy) ==
+Call(t, op, k, v, lazy, tk) ==
   /\ t \in Threads /\ pend[t].op = "none"
   /\ op \in {"write", "remove", "read", "list"}
   /\ IF op = "list" THEN k \in {ns[j] : j \in Keys} \cup {0} ELSE k \in Keys
   /\ op = "write" => v > 0
   /\ pend' = [pend EXCEPT ![t] =
-       [op |-> op, k |-> k, v |-> v, lazy |-> lazy, done |-> FALSE,
+       [op |-> op, k |-> k, v |-> v, lazy |-> lazy, tk |-> tk, done |-> FALSE,
         seen |-> IF op = "read" THEN {<<k, kv[k]>>}
                  ELSE IF op = "list"
                    THEN UNION {IF lz[j] THEN {<<j, 0>>, <<j, 1>>} ELSE {<<j, Pres(kv[j])>>}
@@ -98,6 +132,7 @@ Call(t, op, k, v, lazy) ==
 (* one pending mutator takes effect on its own (explicit linearisation point) *)
 Lin(t) ==
   /\ t \in Threads /\ IsMut(pend[t]) /\ ~pend[t].done
+  /\ pend[t].tk > 0 => \A u \in Others(t, {pend[t].k}) : pend[u].tk > pend[t].tk
   /\ LET st == ApplyOne(Cur, t) IN kv' = st.kv /\ lz' = st.lz /\ pend' = st.pend
   /\ UNCHANGED <<nk, ns>>
 
@@ -110,13 +145,13 @@ Finish(st, t) ==
 RetMut(t) ==
   /\ t \in Threads /\ IsMut(pend[t])
   /\ IF pend[t].done THEN Finish(Cur, t)
-     ELSE \E seq \in OrderedSubsets(Others(t, {pend[t].k})) :
+     ELSE \E seq \in BeforeMut(t) :
             Finish(ApplySeq(Cur, seq \o <<t>>), t)
 
 (* a read returns r: 0 = NotFound, v > 0 = exactly the bytes of the write with value id v *)
 RetRead(t, r) ==
   /\ t \in Threads /\ pend[t].op = "read"
-  /\ \E seq \in OrderedSubsets(Others(t, {pend[t].k})) :
+  /\ \E seq \in BeforeObs(t, {pend[t].k}) :
        LET st == ApplySeq(Cur, seq) IN
        /\ <<pend[t].k, r>> \in st.pend[t].seen
        /\ Finish(st, t)
@@ -126,7 +161,7 @@ RetList(t, R) ==
   /\ t \in Threads /\ pend[t].op = "list"
   /\ LET K == {j \in Keys : ns[j] = pend[t].k} IN
      /\ R \subseteq K
-     /\ \E seq \in OrderedSubsets(Others(t, K)) :
+     /\ \E seq \in BeforeObs(t, K) :
           LET st == ApplySeq(Cur, seq) IN
           /\ \A j \in K : <<j, IF j \in R THEN 1 ELSE 0>> \in st.pend[t].seen
           /\ Finish(st, t)
@@ -145,4 +180,11 @@ TypeOK ==
 
 (* a key is "lazily absent" only while absent *)
 LazyOnlyAbsent == \A k \in Keys : lz[k] => kv[k] = 0
+
+(* issue order: a mutator that is not in effect yet was issued after every    *)
+(* pending mutator of its key that is                                        *)
+IssueOrder ==
+  \A t, u \in Threads :
+    (IsMut(pend[t]) /\ IsMut(pend[u]) /\ pend[t].k = pend[u].k /\ pend[t].tk > 0 /\ pend[u].tk > 0
+       /\ pend[t].done /\ ~pend[u].done) => pend[t].tk < pend[u].tk
 =============================================================================
